@@ -181,7 +181,28 @@ pub fn gen_scenario(r: &mut Rng) -> Option<Scenario> {
     }
     // auxiliaries of a DHW system
     let mut w = z.clone();
-    let aux = r.chance(1, 3);
+    // direct electric DHW whose consumption is tiny next to large auxiliaries of the same system (a circulation pump that
+    // runs all year, an immersion heater used once): still electricity used for DHW beyond the auxiliaries, clear of the
+    // library's guard max(0.01 kWh, 1e-4 x auxiliaries) by a third at least
+    let tiny_joule = joule && !hp && r.chance(1, 5);
+    if tiny_joule {
+        let aux_total = (110 + r.below(80)) as f32;
+        w[r.usize(n)] = aux_total;
+        let x = if r.chance(1, 2) { 0.02f32 } else { ((aux_total as f64 * 0.005 * 100.0).round() / 100.0) as f32 };
+        e1 = z.clone();
+        e1[r.usize(n)] = x;
+        for l in lines.iter_mut() {
+            if let Line::Used { id: 1, srv, cr, v, .. } = l {
+                if srv == "ACS" && cr == "ELECTRICIDAD" {
+                    *v = e1.clone();
+                }
+            }
+        }
+        lines.push(Line::Aux { id: 1, v: w.clone(), comment: String::new() });
+        mixes.push("auxiliaries".into());
+        mixes.push("direct_electric_tiny_next_to_large_auxiliaries".into());
+    }
+    let aux = !tiny_joule && r.chance(1, 3);
     // auxiliaries of an electric DHW system, or (DHW electricity = auxiliaries only) of a non-electric one
     let auxid = if joule {
         1
@@ -381,6 +402,9 @@ pub fn check_scenario(_ctx: &Ctx, sc: &Scenario, t: &mut Tally) {
     for m in &sc.mixes {
         t.count(&format!("mix.{m}"));
     }
+    // rounding noise of the fraction: f32 differences of electricity sums divided by the declared demand (amplified when
+    // the demand is tiny against the DHW-related energies, e.g. 0.02 kWh of direct electric next to 150 kWh of auxiliaries)
+    let noise = super::common::dhw_noise_band(&case.spec).1;
     let value = match (&got, &sc.expected) {
         (Out::Panic(m), _) => {
             t.violation("C15.indicator_panicked", format!("fraccion_renovable_acs_nrb panicked: {m}"), || wit(json!({})));
@@ -400,10 +424,10 @@ pub fn check_scenario(_ctx: &Ctx, sc: &Scenario, t: &mut Tally) {
         }
         (Out::Ok(v), Some(e)) => {
             let v = *v as f64;
-            if !(v >= -1e-5 && v <= 1.0 + 1e-5) {
+            if !(v >= -1e-5 - noise && v <= 1.0 + 1e-5 + noise) {
                 t.violation("C15.outside_unit_interval", format!("renewable DHW fraction {v} is not in [0, 1]"), || wit(json!({"reported": v})));
             }
-            if (v - e).abs() > 1e-4 {
+            if (v - e).abs() > 1e-4 + noise {
                 t.violation("C15.differs_from_closed_form", format!("renewable DHW fraction {v}, closed form for {:?} gives {e}", sc.mixes), || wit(json!({"reported": v, "expected": e})));
             } else {
                 t.max("largest_difference_to_closed_form", (v - e).abs());
@@ -459,11 +483,15 @@ pub fn check_scenario(_ctx: &Ctx, sc: &Scenario, t: &mut Tally) {
         variants.push(("area", c));
         let mut c = case.clone();
         let j = *r.pick(&[-2i32, 1, 3, 6]);
+        // scaling down must not take a declared amount below 0.01 kWh (the domain of the statement, and the side of the
+        // library's absolute guard the amount is on)
+        let smallest = case.spec.lines.iter().flat_map(|l| l.values().iter()).filter(|x| **x > 0.0).fold(f32::INFINITY, |a, x| a.min(*x));
+        let j = if j < 0 && smallest * 2f32.powi(j) < 0.05 { 2 } else { j };
         c.spec = c.spec.scaled(2f32.powi(j));
         variants.push(("scaling", c));
         for (name, c) in variants {
             match fraction(&c, t) {
-                Some(Out::Ok(v2)) if (v2 as f64 - v).abs() <= 2e-5 => t.count(&format!("invariance.{name}.held")),
+                Some(Out::Ok(v2)) if (v2 as f64 - v).abs() <= 2e-5 + 2.0 * noise => t.count(&format!("invariance.{name}.held")),
                 Some(other) => t.violation(
                     &format!("C15.changes_with.{name}"),
                     format!("renewable DHW fraction {v} becomes {} under {name}", other.describe_value()),
